@@ -101,14 +101,14 @@ MpProgs == [k \in 1 .. Len(MpSeq) |->
                            ELSE IF Quick THEN [j \in 1 .. 8 |-> AllPerturb[((k * 8 + j + Seed) % Len(AllPerturb)) + 1]] \o Forges
                            ELSE AllPerturb]]
 
-Points == {"mont:1", "mont:2^64-1", "0", "1", "127", "128", "254", "255", "256", "257", "300", "65536", "2^64", "h", "r-2", "r-1", "rnd1", "rnd2"}
+Points == {"mont:1", "mont:2^64-1", "0", "1", "127", "128", "254", "255", "256", "257", "300", "65536", "2^64", "h", "r-2", "r-1", "rnd1", "rnd2", "2^64+5", "2^128+255", "2^192+5", "3*2^192+255", "2^128+2^64+0", "2^250+7"}
 PfPerturb == <<"pfL0", "pfL7", "pfR3", "pfa", "pfswap", "pfL0id", "pfLnext">>     \* the correct result with a proof changed in one component
 ResultsFor(pt) == IF ~Quick THEN <<"correct", "+1", "-1", "0", "f255", "f0", "rnd">> \o PfPerturb
                   ELSE IF pt \in {"255", "256"} THEN <<"correct", "+1", "-1", "0", "f255", "f0", "rnd">> \o PfPerturb
                   ELSE <<"correct", "+1", "f255", "rnd">>
 IpaProgs == {[kind |-> "ipa", label |-> "p", poly |-> pl, point |-> pt, results |-> ResultsFor(pt)] :
                pl \in (IF Quick THEN {PolyTab[1], PolyTab[7]} ELSE {PolyTab[i] : i \in 1 .. Len(PolyTab)} \cup HalfPolys),
-               pt \in (IF Part = "ipa_few" THEN {"0", "255", "256", "2^64", "r-1", "rnd1", "mont:5"} ELSE Points)}
+               pt \in (IF Part = "ipa_few" THEN {"0", "255", "256", "2^64", "r-1", "rnd1", "mont:5", "2^64+5", "2^128+255", "2^192+5"} ELSE Points)}
 
 ByteCl == {"valid", "short1", "short32", "empty", "trail1", "trail32", "scalar_r", "scalar_r+1", "scalar_r-1", "scalar_max",
            "pt_xplusp", "pt_nonsubgroup", "pt_offcurve", "pt_other", "bitflip", "random",
